@@ -52,6 +52,8 @@ class Reporter:
         self.extra = {}
         self.budgets = {}
         self.harness_errors = []
+        self.confirm_errors = []
+        self.soft_errors = []        # replay divergences met while exploring
         self.confirm = None          # callable(payload) -> [violation dicts]
 
     # ---- accumulation ----------------------------------------------------
@@ -76,14 +78,47 @@ class Reporter:
         return (v["clause"], v["cause"])
 
     def _reproduces(self, payload, sig):
+        """Re-execute the witness twice, each time in a FRESH forked child of
+        this (pristine) process -- the same situation as `check.py replay`
+        in a new interpreter; earlier confirmations cannot leave state
+        behind that would mask or fake a later one."""
         for rep in range(2):
-            if payload.get("prelude") if isinstance(payload, dict) else False:
-                from . import run as runmod
-                runmod.prelude(payload)
-            again = self.confirm(payload)
-            if sig not in {(a["clause"], a["cause"]) for a in again}:
+            if not self._confirm_in_child(payload, sig):
                 return False
         return True
+
+    def _confirm_in_child(self, payload, sig):
+        import multiprocessing as mp
+        ctx = mp.get_context("fork")
+        rd, wr = ctx.Pipe(False)
+
+        def child():
+            try:
+                if isinstance(payload, dict) and payload.get("prelude"):
+                    from . import run as runmod
+                    runmod.prelude(payload)
+                again = self.confirm(payload)
+                wr.send(("ok", sig in {(a["clause"], a["cause"])
+                                       for a in again}))
+            except BaseException as e:       # noqa
+                import traceback
+                wr.send(("err", traceback.format_exc()[-1500:]))
+            finally:
+                wr.close()
+        proc = ctx.Process(target=child)
+        proc.start()
+        wr.close()
+        try:
+            kind, val = rd.recv()
+        except EOFError:
+            kind, val = "err", "confirmation child died"
+        proc.join()
+        if kind == "err":
+            # e.g. the recorded prefix does not replay in a fresh process:
+            # this witness is not a replayable one
+            self.confirm_errors.append(val.strip().splitlines()[-1][:300])
+            return False
+        return bool(val)
 
     def finish(self):
         known = load_known()
@@ -94,6 +129,7 @@ class Reporter:
             groups.setdefault(self._sig(v), []).append(v)
         lines = []
         n_viol = 0
+        unconfirmed = []
         seen_known = []
         os.makedirs(os.path.join(REPLAY_DIR, self.pid), exist_ok=True)
         for old in os.listdir(os.path.join(REPLAY_DIR, self.pid)):
@@ -101,6 +137,7 @@ class Reporter:
                 os.remove(os.path.join(REPLAY_DIR, self.pid, old))
         for sig in sorted(groups, key=lambda s: (str(s[0]), str(s[1]))):
             vs = groups[sig]
+            ncases = len(vs)
             if sig in open_k:
                 k = open_k[sig]
                 seen_known.append({"clause": sig[0], "cause": sig[1],
@@ -110,30 +147,54 @@ class Reporter:
                                  self.pid, k["what"], sig[0], sig[1],
                                  len(vs)))
                 continue
-            # unknown signature: confirm, write replay(s), report
-            for n, v in enumerate(vs[:3]):
-                if self.confirm is not None and n == 0:
-                    ok = self._reproduces(v["payload"], sig)
-                    if not ok and isinstance(v["payload"], dict) \
+            # unknown signature: confirm, write replay(s), report.
+            # Several witnesses are tried (those that carry their own
+            # history first): a violation caused by state left behind by an
+            # UNRELATED earlier execution of the same worker process does
+            # not replay from its own payload, a witness that names its
+            # history does.
+            if self.confirm is not None:
+                def _hist(v):
+                    pl = v["payload"]
+                    if not isinstance(pl, dict):
+                        return 1
+                    c = pl.get("case") if isinstance(pl.get("case"), dict) \
+                        else pl
+                    return 0 if (c.get("before") or c.get("history")
+                                 or pl.get("history")) else 1
+                cands = sorted(vs, key=_hist)[:12]
+                good = None
+                for v in cands:
+                    if self._reproduces(v["payload"], sig):
+                        good = v
+                        break
+                    if isinstance(v["payload"], dict) \
                             and "case" in v["payload"]:
-                        # State carried from an earlier run in the same
-                        # process (module/class level state in topsim)?  Then
-                        # the case fails again when it is run right after a
-                        # run of itself: that is deterministic and replayable.
+                        # State carried from an earlier run of the same case
+                        # in the same process (module/class level state in
+                        # topsim)?  Deterministic and replayable.
                         pre = dict(v["payload"], prelude=1)
                         if self._reproduces(pre, sig):
-                            for w in vs[:3]:
-                                w["payload"] = dict(w["payload"], prelude=1)
+                            v["payload"] = pre
                             v["detail"] = {"only_after_an_earlier_run_in_the_"
                                            "same_process": True,
                                            "detail": v["detail"]}
-                            ok = True
-                    if not ok:
-                        self.harness_errors.append(
-                            "violation %s/%s did not reproduce on "
-                            "re-execution (neither alone nor after a "
-                            "prelude run): uncaptured nondeterminism"
-                            % (sig[0], sig[1]))
+                            good = v
+                            break
+                if good is None:
+                    # no VIOLATION line without a replayable witness
+                    unconfirmed.append(
+                        "violation %s/%s did not reproduce on "
+                        "re-execution (%d witnesses tried, neither alone nor "
+                        "after a prelude run%s)"
+                        % (sig[0], sig[1], len(cands),
+                           ("; last error: " + self.confirm_errors[-1])
+                           if self.confirm_errors else ""))
+                    continue
+                else:
+                    vs = [good] + [v for v in vs if v is not good
+                                   and _hist(v) == 0][:2]
+            for n, v in enumerate(vs[:3]):
                 h = hashlib.sha1(json.dumps(
                     [sig, _jsonable(v["payload"])],
                     sort_keys=True).encode()).hexdigest()[:10]
@@ -153,9 +214,29 @@ class Reporter:
                     lines.append("VIOLATION property=%s replay=%s" % (
                         self.pid, path))
                     lines.append("  clause=%s cause=%s cases=%d detail=%s" % (
-                        sig[0], sig[1], len(vs),
+                        sig[0], sig[1], ncases,
                         json.dumps(_jsonable(v["detail"]))[:300]))
             n_viol += 1
+        if self.soft_errors:
+            msgs = ["%d execution(s) did not replay their prefix, e.g. %s"
+                    % (len(self.soft_errors), self.soft_errors[0])]
+            if n_viol:
+                lines.append("NOTE executions are not independent of what "
+                             "the process ran before: " + msgs[0])
+            else:
+                self.harness_errors.extend(msgs)
+        if unconfirmed:
+            if n_viol:
+                # the tree is already shown to violate the property by
+                # replayable witnesses; these further signatures depend on
+                # what the worker process executed before (state that
+                # outlives a simulation) and are listed for information
+                for u in unconfirmed:
+                    lines.append("NOTE order-dependent, not replayable on "
+                                 "its own: " + u)
+            else:
+                self.harness_errors.extend(
+                    u + ": uncaptured nondeterminism" for u in unconfirmed)
         wall = time.time() - self.t0
         states = len(self.states) if isinstance(self.states, set) \
             else int(self.states)
